@@ -6,6 +6,7 @@ import (
 	"io"
 	"reflect"
 
+	"github.com/vimeo/dials/internal/verifhook"
 	"github.com/vimeo/dials/ptrify"
 )
 
@@ -163,6 +164,9 @@ func (p Params[T]) Config(ctx context.Context, t *T, sources ...Source) (*Dials[
 			p:    &p,
 			ch:   cbch,
 			done: d.monDone,
+		}
+		if verifhook.Enabled {
+			verifhook.Point("config.spawn", ctx, d, cbch)
 		}
 		go cbmgr.runCBs(ctx)
 
@@ -449,6 +453,9 @@ func (d *Dials[T]) updateSourceValue(
 		d.submitEvent(ctx, &watchErrorEvent[T]{
 			err: stackErr, oldConfig: oldVal, newConfig: newVal,
 		})
+		if verifhook.Enabled {
+			verifhook.Point("mon.beforeReply", ctx, d, stackErr, watchTab.installed != nil)
+		}
 		if watchTab.installed != nil {
 			watchTab.installed <- stackErr
 		}
@@ -466,6 +473,9 @@ func (d *Dials[T]) updateSourceValue(
 				err: vfErr, oldConfig: oldVal, newConfig: newVal,
 			})
 
+			if verifhook.Enabled {
+				verifhook.Point("mon.beforeReply", ctx, d, vfErr, watchTab.installed != nil)
+			}
 			if watchTab.installed != nil {
 				watchTab.installed <- vfErr
 			}
@@ -480,11 +490,17 @@ func (d *Dials[T]) updateSourceValue(
 	// We can do a blind-store here because this goroutine (monitor()) has
 	// exclusive ownership of writes to this atomic-value
 	d.value.Store(&versionedConfig[T]{serial: oldSerial.s + 1, cfg: newVers})
+	if verifhook.Enabled {
+		verifhook.Point("mon.stored", ctx, d, oldSerial.s+1, newVers)
+	}
 	select {
 	case d.updatesChan <- newVers:
 	default:
 	}
 
+	if verifhook.Enabled {
+		verifhook.Point("mon.beforeReply", ctx, d, error(nil), watchTab.installed != nil)
+	}
 	// If there's an installed channel, poke it.
 	if watchTab.installed != nil {
 		watchTab.installed <- nil
@@ -521,6 +537,9 @@ func (d *Dials[T]) submitEventBlocking(ctx context.Context, ev userCallbackEvent
 	// don't panic
 	if d.cbch == nil {
 		return false
+	}
+	if verifhook.Enabled {
+		verifhook.Point("api.submit", ctx, d, ev)
 	}
 	// Once the monitor has exited nothing is going to handle new events.
 	select {
@@ -646,12 +665,20 @@ func (d *Dials[T]) monitor(
 	// (the callback channel itself is never closed because RegisterCallback
 	// and the unregister functions may send on it at any time)
 	defer close(d.monDone)
+	if verifhook.Enabled {
+		// deferred calls run last-in-first-out: "mon.exit" fires just
+		// before monDone is closed.
+		defer verifhook.Point("mon.exit", ctx, d)
+	}
 	skipVerify := d.params.DelayInitialVerification
 	for {
 		select {
 		case <-ctx.Done():
 			return
 		case v := <-monCtl:
+			if verifhook.Enabled {
+				verifhook.Point("mon.recv", ctx, d, "enable")
+			}
 			if !skipVerify {
 				// we're not in skipVerify mode, so just send back
 				// a success and continue
@@ -665,11 +692,17 @@ func (d *Dials[T]) monitor(
 			}
 			skipVerify = !d.monitorEnableVerify(v)
 		case watchTab := <-watcherChan:
+			if verifhook.Enabled {
+				verifhook.Point("mon.recv", ctx, d, watchTab)
+			}
 			switch v := watchTab.(type) {
 			case *valueUpdate:
 				oldConfig, oldSerial := d.ViewVersion()
 				newConfig := d.updateSourceValue(ctx, t, skipVerify, sourceValues, v)
 				if newConfig != nil {
+					if verifhook.Enabled {
+						verifhook.Point("mon.beforeAnnounce", ctx, d, oldSerial.s+1)
+					}
 					d.submitEvent(ctx, &newConfigEvent[T]{
 						oldConfig: oldConfig,
 						newConfig: newConfig,
